@@ -1,6 +1,7 @@
 package wos
 
 import (
+	"encoding/json"
 	"fmt"
 	"os"
 	"strconv"
@@ -31,6 +32,16 @@ type EnvString string
 func (es *EnvString) UnmarshalJSON(data []byte) error {
 	if len(data) < 2 {
 		return fmt.Errorf("EnvString must be at least 2 bytes")
+	}
+	if data[0] == '"' {
+		// a JSON string: its escape sequences are part
+		// of the encoding, not of the value
+		var s string
+		if err := json.Unmarshal(data, &s); err != nil {
+			return fmt.Errorf("EnvString unable to decode %s: %w", data, err)
+		}
+		*es = EnvString(Getenv(s))
+		return nil
 	}
 	data = data[1 : len(data)-1] // remove quotes
 	*es = EnvString(Getenv(string(data)))
